@@ -56,7 +56,9 @@ def evaluate(sd, run_tests=True):
 
 
 if __name__ == "__main__":
-    seeds = sys.argv[1:]
-    with ThreadPoolExecutor(max_workers=5) as ex:
-        for r in ex.map(evaluate, seeds):
+    args = sys.argv[1:]
+    run_tests = "--no-tests" not in args
+    seeds = [a for a in args if not a.startswith("--")]
+    with ThreadPoolExecutor(max_workers=5 if run_tests else 8) as ex:
+        for r in ex.map(lambda s_: evaluate(s_, run_tests), seeds):
             print(json.dumps(r, ensure_ascii=False))
